@@ -265,7 +265,9 @@ fn main() {
                     time_passes(&sys.e, &mut r, 700);
                     let own = *pick(&mut r, &users);
                     let oper = if r.gen_bool(0.7) { own } else { *pick(&mut r, &users) };
-                    let recv = if r.gen_bool(0.6) { own } else { *pick(&mut r, &users) };
+                    // (now and then the vault itself is the receiver: shares held by the vault's own address are shares
+                    // like any other in every conversion; assets "paid out" to it stay where they are)
+                    let recv = if r.gen_bool(0.6) { own } else if r.gen_bool(0.2) { "v" } else { *pick(&mut r, &users) };
                     let ab = last["asset"][own].as_i64().unwrap_or(0);
                     let sb = last["sh"][own].as_i64().unwrap_or(0);
                     let amt = |r: &mut StdRng, cap: i64| -> i64 {
